@@ -17,10 +17,69 @@ def run_property(prop, tier, seed, quiet=False, root=None):
     ck = Checker(prop, repo, tier)
     mod = importlib.import_module(f"sa.props.{prop.lower()}")
     mod.run(ck)
-    if tier == "thorough" and hasattr(mod, "run_thorough"):
-        mod.run_thorough(ck)
+    if tier == "thorough":
+        if hasattr(mod, "run_thorough"):
+            mod.run_thorough(ck)
+        sensitivity(ck, prop, root)
     return finish(ck, seed=seed, level="other", explanation=mod.EXPLANATION,
                   assumptions=getattr(mod, "ASSUMPTIONS", ()), trusted_base=getattr(mod, "TRUSTED", ()), quiet=quiet)
+
+
+def _sens_one(args):
+    import sys as _s
+    _s.path.insert(0, os.path.join(os.path.dirname(os.path.abspath(__file__)), "..", "selftest"))
+    import mut
+    prop, file, old, new, rule, root = args
+    res = mut.run([prop], file, old, new, repo=root or os.environ.get("VERIF_REPO", "/repo"))
+    if res and res[0][0] == "EDIT-FAILED":
+        return (file, old[:40], rule, "skipped: " + res[0][1][:60])
+    _, code, lines = res[0]
+    fired = sorted({l.strip().split("]")[0][1:] for l in lines if l.strip().startswith("[")})
+    return (file, old[:40], rule, f"exit {code} {fired[:4]}")
+
+
+def sensitivity(ck, prop, root):
+    """Thorough tier: apply every catalogue edit for this property to a scratch copy of the CURRENT tree and record which
+    rules report it. Never changes the verdict; an edit whose anchor is absent on an edited tree is skipped."""
+    import concurrent.futures
+    sys.path.insert(0, os.path.join(os.path.dirname(os.path.abspath(__file__)), "..", "selftest"))
+    import catalogue
+    entries = [e + (root,) for e in catalogue.M if e[0] == prop]
+    log = ck.rule("sensitivity", "seeded single-site edits of the current tree and the rules that report them (informational)", 0)
+    # independently authored changes under /verif/seeded/<id>/ that target this property
+    import glob, json as _json, shutil, subprocess, tempfile
+    verif = os.path.join(os.path.dirname(os.path.abspath(__file__)), "..")
+    for d in sorted(glob.glob(os.path.join(verif, "seeded", "*"))):
+        try:
+            meta = _json.load(open(os.path.join(d, "meta.json")))
+        except Exception:
+            continue
+        if meta.get("property") != prop:
+            continue
+        tmp = tempfile.mkdtemp(prefix="sa-seed-")
+        try:
+            shutil.copytree(os.path.join(root or os.environ.get("VERIF_REPO", "/repo"), "pdpy11"), os.path.join(tmp, "pdpy11"))
+            r = subprocess.run(["patch", "-p1", "-s", "-i", os.path.join(d, "patch.diff")], cwd=tmp, capture_output=True, text=True)
+            if r.returncode:
+                outcome = "skipped: patch does not apply to the current tree"
+            else:
+                c = subprocess.run([os.path.join(verif, "check"), prop, "--repo", tmp], capture_output=True, text=True, env={**os.environ, "SA_NO_EVIDENCE": "1"})
+                fired = sorted({l.strip().split("]")[0][1:] for l in c.stdout.splitlines() if l.startswith("  [")})
+                outcome = f"exit {c.returncode} {fired[:4]}"
+        finally:
+            shutil.rmtree(tmp, ignore_errors=True)
+        ck.instance(("independent", os.path.basename(d)), {"independently seeded change": os.path.basename(d), "summary": meta.get("summary", "")[:160], "outcome": outcome})
+        if not (outcome.startswith("exit 1") or outcome.startswith("skipped")):
+            ck.note(f"sensitivity: independently seeded change {os.path.basename(d)} is not reported by this property's check: {outcome}")
+    if not entries:
+        return
+    with concurrent.futures.ProcessPoolExecutor(min(16, len(entries))) as ex:
+        for file, old, rule, outcome in ex.map(_sens_one, entries):
+            ck.instance(("seeded", file, old, rule), {"edit in": file, "at": old, "expected rule": rule, "outcome": outcome})
+            expect_silent = rule is None
+            ok = (expect_silent and outcome.startswith("exit 0")) or (not expect_silent and outcome.startswith("exit 1") and any(f.startswith(rule) for f in eval(outcome[7:]) )) or outcome.startswith("skipped")
+            if not ok:
+                ck.note(f"sensitivity: edit in {file} at {old!r} expected {rule}: {outcome}")
 
 
 def main(argv=None):
